@@ -55,6 +55,12 @@ CHECKS = {
  "C19": ("structured-list oracle: equations rendered from (coefficient, label) lists with arbitrary spacing are parsed by the real Reaction class and compared field by field; SI oracle for constants",
          "20k (quick) / 500k (thorough) random equations: stoichiometry with repeats summed, dsto, orders, print-parse round trip, constant dimensions per order in every unit system, wrong-dimension rejection, split, K (scalar and per environment), and the three network refusals (each paired with the accepted unmutated network).",
          "Labels follow the documented rules (no whitespace, '+', '->').", "DESIGN.md 2/C19"),
+ "C07": ("trace monitors on recorded stochastic trajectories: step-legality classifier against reference propensities; sequential Ville (exponential supermartingale) tests and randomised-PIT + DKW tests with explicit false-alarm bounds",
+         "Every Gillespie step (hundreds of thousands in the quick tier) must be the chemostat-masked effect of one channel with positive reference propensity; waiting times a0*dt ~ Exp(1), event-category frequencies, tau-leap increments of species totals / single entries and per-channel firing counts (catalytic tally products, lambda up to 30) are tested against the master-equation rates with monitors whose false-alarm probability is 1e-12 each.",
+         "Statistical power: relative rate errors of a few percent at 1e5 events; tau-leap steps with a negative pre-state entry are skipped and counted.", "DESIGN.md 2/C07"),
+ "C11": ("compiler sanitizers (ASan + UBSan + float-cast-overflow via clang-14, runtime preloaded into the stock interpreter) and hardened libstdc++ (_GLIBCXX_ASSERTIONS) on builds of the working tree's engine, driven through the Python API by the workloads of C02/C07/C09/C10/C14 and degenerate scripts",
+         "Two instrumented builds of the current engine sources run ~1200 scripts / lifecycle sequences each in the quick tier (degenerate grids and graphs, all policies, all init modes, empty tails of the sample list); sanitizer report blocks are parsed from log files and de-duplicated by kind and first engine frame, hardened-library aborts are attributed to the case in flight.",
+         "Red-zone tools miss intra-object and far overflows; leaks not claimed; MemorySanitizer not usable (CPython/numpy/libstdc++ uninstrumented).", "DESIGN.md 2/C11"),
 }
 
 PENDING = {
